@@ -94,6 +94,7 @@ type (
 		info       ClientInfo
 		statusFlag int32
 		takenFlag  int32 // set when a newer connection with the same client id has replaced this one
+		cleanFlag  int32 // set when closeAndDelSession has removed this connection's session state
 		writeCh    chan packets.ControlPacket
 		done       chan struct{}
 
@@ -318,7 +319,11 @@ func (c *Client) closeAndDelSession() {
 	// makes the check and the clean-up atomic with respect to handleConn.
 	b := c.broker
 	b.Lock()
-	if cur, ok := b.clients[c.info.cid]; !c.takenOver() && (!ok || cur == c) {
+	// ... and only once: the write loop calls this too when a write fails,
+	// possibly long after the read loop tore the connection down and another
+	// connection with the same client id has come and gone.
+	if cur, ok := b.clients[c.info.cid]; !c.takenOver() && (!ok || cur == c) &&
+		atomic.CompareAndSwapInt32(&c.cleanFlag, 0, 1) {
 		b.sessMgr.delLocal(c.info.cid)
 		if c.session.cleanSession() {
 			b.sessMgr.delDB(c.info.cid)
